@@ -22,16 +22,16 @@ theorem mirror_setupProd (db : Db) (s : St) (ha : AlreadyOK db s.already) (hm : 
   simp only; rw [this]; exact hc
 
 /-- with `keep` first and depth > 0, a name in `alreadySetupProducts` resolves to its entry -/
-theorem resolve_keep (db : Db) (keep : Bool) (al : Already) (name : Name) (version : Option VerReq)
+theorem resolve_keep (db : Db) (path : List Nat) (keep : Bool) (al : Already) (name : Name) (version : Option VerReq)
     (vexpr : Option VExpr) (depth : Nat) (k : Nat) (post : List VroEnt) (d0 : Decl) (r0 : Option VroEnt)
     (hg : aget al name = some (d0, r0)) (d : Decl) (r : Option VroEnt)
-    (h : resolve db keep al name version vexpr (depth + 1) k (.keep :: post) = .found d r) : d = d0 := by
+    (h : resolve db path keep al name version vexpr (depth + 1) k (.keep :: post) = .found d r) : d = d0 := by
   cases k with
   | zero => simp [resolve] at h
   | succ k =>
-    have hw : walk db al name version (depth + 1) vexpr (.keep :: post) = some (d0, .keep, .keep) := by
+    have hw : walk db path al name version (depth + 1) vexpr (.keep :: post) = some (d0, .keep, .keep) := by
       simp [walk, hg]
-    have hf : ∃ r', find db al name version vexpr (depth + 1) (.keep :: post) = some (d0, r') := by
+    have hf : ∃ r', find db path al name version vexpr (depth + 1) (.keep :: post) = some (d0, r') := by
       unfold find; rw [hw]; simp only [hg]
       cases r0 with
       | none => exact ⟨_, rfl⟩
@@ -87,9 +87,9 @@ theorem acts_keep (cfg : Cfg) (rec : Rec) (hal : AlOK cfg rec) (hrec : KeepSpec 
     exact ⟨fun _ _ _ => rfl, fun _ _ h => h, hm⟩
   | cons a rest ih =>
     intro s ha hm
-    by_cases hdep : ∃ n o j v x t, a = .dep n o j v x t
-    · obtain ⟨n, o, j, v, x, t, rfl⟩ := hdep
-      simp only [acts, hk, if_true]
+    by_cases hdep : ∃ n o j v x t kl, a = .dep n o j v x t kl
+    · obtain ⟨n, o, j, v, x, t, kl, rfl⟩ := hdep
+      simp only [acts, hk, true_or, if_true]
       split
       · exact ih s ha hm
       · have hpost := hrec depth j (t.map VroEnt.tag ++ vro) n v x s ha hm
@@ -117,7 +117,7 @@ theorem acts_keep (cfg : Cfg) (rec : Rec) (hal : AlOK cfg rec) (hrec : KeepSpec 
         | fuel => simp only; trivial
         | notFound s1 => simp only; exact fail s1 (by rw [hr]; rfl)
         | raised s1 => simp only; exact fail s1 (by rw [hr]; rfl)
-    · have hnd : ∀ n o j v x t, a ≠ .dep n o j v x t := fun n o j v x t e => hdep ⟨n, o, j, v, x, t, e⟩
+    · have hnd : ∀ n o j v x t kl, a ≠ .dep n o j v x t kl := fun n o j v x t kl e => hdep ⟨n, o, j, v, x, t, kl, e⟩
       rw [acts_cons_nondep rec cfg true depth noRec vro d a rest s hnd]
       have hm1 : Mirror (a.apply true d.prod s) := by
         intro m w hw
@@ -169,7 +169,7 @@ theorem install_keep (cfg : Cfg) (rec : Rec) (hal : AlOK cfg rec) (hrec : KeepSp
       (acts_keep cfg rec hal hrec depth noRec vro hk d _ (record d reason s) (alreadyOK_aset cfg.db _ ha d reason hc) hm1)
   | some sd =>
     obtain ⟨hv, hd⟩ := hsame sd hsp
-    have hskip : ((sd.ver == d.ver || sd.dir == d.dir) && decide (depth > 0)) = true := by simp [hv, hd]
+    have hskip : ((sd.ver.1 == d.ver.1 || sd.dir == d.dir) && decide (depth > 0)) = true := by simp [hv, hd]
     simp only [hskip, if_true]
     exact ⟨fun _ _ _ => rfl, fun _ _ h => h, hm⟩
 
@@ -180,12 +180,12 @@ theorem setup_keepSpec (cfg : Cfg) : ∀ fuel, KeepSpec cfg (setup cfg fuel) := 
   | succ f ih =>
     intro depth noRec post n ver vexpr s ha hm
     rw [setup_succ_true]
-    cases hres : resolve cfg.db cfg.keep s.already n ver vexpr (depth + 1) (VroEnt.keep :: post).length (.keep :: post) with
+    cases hres : resolve cfg.db cfg.path cfg.keep s.already n ver vexpr (depth + 1) (VroEnt.keep :: post).length (.keep :: post) with
     | none => exact fun _ _ _ => rfl
     | error => exact fun _ _ _ => rfl
     | found d reason =>
       simp only
-      obtain ⟨hc, hname⟩ := resolve_spec cfg.db cfg.keep s.already ha n ver vexpr (depth + 1) _ _ _ _ hres
+      obtain ⟨hc, hname⟩ := resolve_spec cfg.db cfg.path cfg.keep s.already ha n ver vexpr (depth + 1) _ _ _ _ hres
       have hreg : register cfg (depth + 1) d reason s = s := by simp [register]
       rw [hreg]
       refine install_keep cfg (setup cfg f) (setup_alOK cfg f) ih (depth + 1) noRec (.keep :: post) (by simp) d reason hc
@@ -194,7 +194,7 @@ theorem setup_keepSpec (cfg : Cfg) : ∀ fuel, KeepSpec cfg (setup cfg fuel) := 
       obtain ⟨_, _, hrec⟩ := setupProd_some cfg.db s.env d.name sd hsp
       obtain ⟨d0, r0, hg, hv, _⟩ := mirror_setupProd cfg.db s ha hm d.name sd.ver hrec
       rw [hname] at hg
-      have := resolve_keep cfg.db cfg.keep s.already n ver vexpr depth _ post d0 r0 hg d reason hres
+      have := resolve_keep cfg.db cfg.path cfg.keep s.already n ver vexpr depth _ post d0 r0 hg d reason hres
       rw [this]; exact ⟨hv.symm, by omega⟩
 
 end EupsModel.Setup
